@@ -24,8 +24,9 @@ class PlainFormatter(Formatter):
         for tag, style in style_set.styles.items():
             pastel_style = StyleConverter.convert(style)
 
+            # Tags are matched in lower case
             self._formatter.add_style(
-                tag,
+                tag.lower() if tag else tag,
                 pastel_style.foreground,
                 pastel_style.background,
                 pastel_style.options,
@@ -46,8 +47,9 @@ class PlainFormatter(Formatter):
     def add_style(self, style):  # type: (Style) -> None
         pastel_style = StyleConverter.convert(style)
 
+        # Tags are matched in lower case
         self._formatter.add_style(
-            style.tag,
+            style.tag.lower() if style.tag else style.tag,
             pastel_style.foreground,
             pastel_style.background,
             pastel_style.options,
